@@ -18,13 +18,32 @@ def _c18_tables(tier, seed):
     return []
 
 
+def _c10_crash(tier, seed):
+    """C10-K3: SMT crash-atomicity sub-check (z3 + cvc5), see smt/c10_crash.py"""
+    import json, os, subprocess, sys
+    here = os.path.dirname(os.path.dirname(os.path.abspath(__file__)))
+    p = subprocess.run([sys.executable, os.path.join(here, "smt", "c10_crash.py")], capture_output=True, text=True)
+    try:
+        res = json.loads(p.stdout.strip().splitlines()[-1])
+    except Exception as e:
+        raise Inconclusive(f"c10_crash.py produced no result: {e} {p.stderr[-300:]}")
+    res["functions"] = set(res.get("functions", []))
+    res.setdefault("unwindset", {})
+    print(f"  {res['harness']}: {res['status']} effects={res.get('effects')} solvers={res.get('solvers')} {res.get('detail','')[:200]}", flush=True)
+    if res["status"] == "inconclusive":
+        res["status"] = "inconclusive_smt"
+    return [res]
+
+
 _STATS = {}
-PRE = {"C01": _accept_tables, "C02": _accept_tables, "C03": _accept_tables, "C18": _c18_tables}
+PRE = {"C10": _c10_crash, "C01": _accept_tables, "C02": _accept_tables, "C03": _accept_tables, "C18": _c18_tables}
 EXTRA = {
     "C01": lambda: {"acceptance_table": _STATS.get("accept"),
                     "acceptance_table_source": "real parser + HIR diagnostics of /repo run natively by /verif/extract on one generated program (one statement per operator/type triple)"},
     "C02": lambda: {"acceptance_table": _STATS.get("accept")},
     "C03": lambda: {"acceptance_table": _STATS.get("accept")},
+    "C10": lambda: {"crash_model": "smt/c10_crash.py: effect order of FileRetainStore::write_bytes extracted from the current source; process-death crash model (completed writes survive, a crash inside write_all leaves a prefix, rename is atomic); SMT-LIB2 solved by z3 4.8.12 and cross-checked with cvc5 1.0; sat => native replay with /verif/native crash-replay against the real load()",
+                    "crash_model_trusted_base": ["effect recogniser (regex over write_bytes)", "file-system crash model"]},
     "C18": lambda: {"dispatcher_table": _STATS.get("c18"),
                     "dispatcher_table_source": "regex recogniser over control/handlers/{status,io,debug,variables,program}.rs of the current tree; specification side: tables/c18_readonly_handlers.txt"},
 }
